@@ -8,8 +8,7 @@ property's quick check should spend on this run:
    0  nothing the property is anchored in has changed
    1  a file the property is anchored in (properties.jsonl, anchors.files) has changed
    2  a function named in the property's anchors (anchors.mechanism[].where / observe_at) has changed, or was removed
-A changed hash raises nothing by itself: the check then runs its correspondence groups with ADDITIONAL generator seeds
-(1 or 2 more), so edited code is met with a deeper search.  On the unchanged tree the answer is 0 and nothing changes.
+A changed hash raises nothing by itself: the check then runs its correspondence groups with one ADDITIONAL generator seed, so edited code is met with a deeper search.  On the unchanged tree the answer is 0 and nothing changes.
 """
 import os, re, json, hashlib, sys, glob
 
